@@ -33,6 +33,20 @@ MC_BASE = {
     'ja':       base('ja', 3, 3, 3, 2, 2),
     'tja':      base('tja', 3, 3, 3, 2, 2),
 }
+# deeper configurations, thorough tier only (2-10 min each at 8 workers)
+MC_BASE.update({
+    'bu4':    base('bu', 2, 0, 4, 2, 2),          # 0.5 M states
+    'bo4':    base('bo', 2, 0, 4, 2, 2),
+    'tbu4':   base('tbu', 2, 0, 4, 2, 2),         # 6.5 M
+    'tbo4':   base('tbo', 2, 0, 4, 2, 2),         # 4.5 M
+    'fe4':    base('fe', 2, 0, 4, 2, 2),
+    'bu5c3':  base('bu', 3, 0, 5, 2, 2),          # 12.9 M
+    'fob4c3': base('fob', 3, 0, 4, 2, 2, front=True),   # 16.3 M
+    'mb3':    base('mb', 3, 3, 4, 2, 3),          # 31.8 M
+    'ja4':    base('ja', 4, 4, 4, 2, 2),
+    'tja4':   base('tja', 4, 4, 4, 2, 2),
+    'ja5':    base('ja', 5, 5, 5, 2, 2),          # 6.8 M
+})
 # the same with one child poll that panics (the panic unwinds through the collection's poll; the collection is used on)
 for _k in ('fub', 'fu', 'fob', 'fo', 'mb', 'mu', 'bu', 'bo', 'tbu', 'tbo', 'fe', 'ja', 'tja'):
     MC_BASE[_k + '_panic'] = dict(MC_BASE[_k], Panics=1)
@@ -103,47 +117,48 @@ def live(name, **consts):
     return {'name': 'live_' + name, 'base': name, 'consts': c, 'spec': 'FairSpec', 'invariants': False, 'lines': ['PROPERTY Progress']}
 
 def mcs(*names, thorough=()):
-    return [mc(n) for n in names] + [mc(n, tier='thorough') for n in thorough]
+    return [mc(n) for n in names] + [mc(n, tier='thorough', workers=14, timeout=5400, xmx='20g') for n in thorough]
 def gens(*names):
     return [GEN[n] for n in names]
 
 PLAN = {
     'C01': {'extra': ['protocol_engine', 'threads_engine'],
-            'mc': mcs('fub', 'fub_b1', 'fu', 'mb', 'mu', 'bu', 'ja', thorough=('fub_c3', 'fu4')) + [live('fub'), live('mu', NC=2)],
+            'mc': mcs('fub', 'fub_b1', 'fu', 'mb', 'mu', 'bu', 'ja', thorough=('fub_c3', 'fu4', 'mu3', 'mb3', 'bu4')) + [live('fub'), live('mu', NC=2)],
             'gen': gens('fub', 'fu', 'mb', 'mu', 'bu'),
             'random': suite(COLL_KINDS + MERGE_KINDS, 200, 2000, 20, 200, profiles=('budget',)) + suite(ADAPT_KINDS + JOIN_KINDS, 150, 1500, 10, 100)},
-    'C02': {'mc': mcs('fub', 'fub_b1', 'fub_init', 'fob', 'fo', 'fu', thorough=('fub_c3', 'fu4')),
+    'C02': {'mc': mcs('fub', 'fub_b1', 'fub_init', 'fob', 'fo', 'fu', thorough=('fub_c3', 'fu4', 'fob4c3')),
             'gen': gens('fub', 'fub_init', 'fu', 'fob', 'fo'),
             'random': suite(COLL_KINDS)},
     'C03': {'mc': [], 'gen': [], 'random': [], 'extra': ['refcount_engine'], 'trace_spec': ('TraceRc.tla', 'TraceRc.cfg')},
     'C04': {'extra': ['ordered_engine'],
-            'mc': mcs('fob', 'fo', 'bo', 'tbo', 'ja', 'tja'),
+            'mc': mcs('fob', 'fo', 'bo', 'tbo', 'ja', 'tja', thorough=('fob4c3', 'bo4', 'tbo4', 'ja4', 'tja4')),
             'gen': gens('fob', 'fo', 'bo', 'tbo', 'ja'),
-            'random': suite(['fob', 'fo'], 400, 4000, 40, 400) + suite(['bo', 'tbo', 'ja', 'tja'], 200, 2000, 15, 150)},
-    'C05': {'mc': mcs('fub', 'fub_init', 'mb', 'mu', 'ja', 'fub_panic', thorough=('mb_panic', 'mu_panic')),
-            'gen': gens('fub', 'mb', 'mu', 'ja', 'fub_panic'),
-            'random': suite(['fub', 'fu', 'mb', 'mu', 'ja', 'bu'], 250, 2500, 20, 200, profiles=('stale',))},
+            'random': suite(['fob', 'fo'], 400, 4000, 40, 400) + suite(['bo', 'tbo', 'ja', 'tja'], 200, 2000, 15, 150)
+                      + [rnd(k, sz, 'frontchurn', n, 10 * n) for k in ('fo', 'fob') for sz, n in (('small', 60), ('real', 8))]},
+    'C05': {'mc': mcs('fub', 'fub_init', 'mb', 'mu', 'ja', 'tja', 'fub_panic', thorough=('mb_panic', 'mu_panic', 'fub_c3', 'mu3', 'ja4', 'tja4')),
+            'gen': gens('fub', 'mb', 'mu', 'ja', 'tja', 'fub_panic'),
+            'random': suite(['fub', 'fu', 'mb', 'mu', 'ja', 'tja', 'bu', 'tbo', 'fe'], 250, 2500, 20, 200, profiles=('stale',))},
     'C06': {'mc': mcs('fub', 'fob', 'mb', 'bo', 'ja', 'tja', 'fub_panic', 'bo_panic', 'ja_panic', 'tja_panic',
-                       thorough=('fu_panic', 'fob_panic', 'fo_panic', 'mb_panic', 'mu_panic', 'bu_panic', 'tbu_panic', 'tbo_panic', 'fe_panic')),
+                       thorough=('fub_c3', 'ja4', 'tja4', 'fu_panic', 'fob_panic', 'fo_panic', 'mb_panic', 'mu_panic', 'bu_panic', 'tbu_panic', 'tbo_panic', 'fe_panic')),
             'gen': gens('fub', 'fob', 'mb', 'bo', 'ja', 'tja', 'fub_panic', 'fu_panic', 'fe_panic', 'tja_panic'),
             'random': suite(ALL_KINDS, 200, 2000, 10, 100) + [rnd(k, 'small', 'panic', 60, 600) for k in ALL_KINDS] + [rnd(k, 'small', 'dpanic', 60, 600) for k in ALL_KINDS]},
-    'C07': {'mc': mcs('ja', 'tja', 'ja_panic', 'tja_panic'),
+    'C07': {'mc': mcs('ja', 'tja', 'ja_panic', 'tja_panic', thorough=('ja4', 'tja4', 'ja5')),
             'gen': gens('ja', 'tja', 'ja_panic', 'tja_panic'),
             'random': suite(JOIN_KINDS, 600, 6000, 60, 600) + [rnd(k, 'small', 'panic', 200, 2000) for k in JOIN_KINDS] + [rnd(k, 'small', 'dpanic', 200, 2000) for k in JOIN_KINDS]},
-    'C08': {'mc': mcs('fub', 'fu', 'mu'),
+    'C08': {'mc': mcs('fub', 'fu', 'mu', thorough=('fu4', 'mu3')),
             'gen': gens('fub', 'fu', 'mu', 'bu', 'tja'),
             'random': suite(COLL_KINDS + MERGE_KINDS, 250, 2500, 30, 300) + [rnd(k, 'real', 'oscillate', 5, 150) for k in COLL_KINDS + MERGE_KINDS]
                       + suite(ADAPT_KINDS + JOIN_KINDS, 100, 1000, 10, 100)},
-    'C09': {'mc': mcs('bu', 'bo', 'tbu', 'tbo', 'fe'),
+    'C09': {'mc': mcs('bu', 'bo', 'tbu', 'tbo', 'fe', thorough=('bu4', 'bo4', 'tbu4', 'tbo4', 'fe4', 'bu5c3')),
             'gen': gens('bu', 'bo', 'tbu', 'tbo', 'fe'),
-            'random': suite(ADAPT_KINDS, 400, 4000, 40, 400)},
-    'C10': {'mc': mcs('bu', 'bo', 'tbu', 'tbo', 'fe'),
+            'random': suite(ADAPT_KINDS, 400, 4000, 40, 400) + [rnd(k, 'real', 'bigcap', 1, 4) for k in ADAPT_KINDS]},
+    'C10': {'mc': mcs('bu', 'bo', 'tbu', 'tbo', 'fe', thorough=('bu4', 'bo4', 'tbu4', 'tbo4', 'fe4', 'bu5c3')),
             'gen': gens('bu', 'bo', 'tbu', 'tbo', 'fe'),
             'random': suite(ADAPT_KINDS, 400, 4000, 40, 400) + [rnd('fe', 'small', 'limit0', 6, 30)]},
-    'C11': {'mc': mcs('mb', 'mu'),
+    'C11': {'mc': mcs('mb', 'mu', thorough=('mu3', 'mb3')),
             'gen': gens('mb', 'mu'),
             'random': suite(MERGE_KINDS, 500, 5000, 60, 600, profiles=('budget',))},
-    'C12': {'mc': mcs('fub', 'fub_b1', 'fu', 'mb', 'mu', 'fub_panic', thorough=('fu_panic', 'mb_panic')),
+    'C12': {'mc': mcs('fub', 'fub_b1', 'fu', 'mb', 'mu', 'fub_panic', thorough=('fu_panic', 'mb_panic', 'fub_c3', 'fu4', 'mu3')),
             'gen': gens('fub', 'fu', 'mb', 'fub_panic', 'mb_panic'),
             'random': suite(COLL_KINDS + MERGE_KINDS, 250, 2500, 20, 200, profiles=('stale',))
                       + [rnd(k, 'small', 'panic', 80, 800) for k in COLL_KINDS + MERGE_KINDS]},
@@ -154,25 +169,27 @@ PLAN = {
                       + [rnd(k, 'real', 'starve', 17, 170) for k in ('fub', 'mb', 'mu')] + [rnd(k, 'real', 'starve', 4, 170) for k in ('fu', 'fob', 'fo')]
                       + [rnd(k, 'small', 'churn', 30, 300) for k in ['fu', 'fo']]
                       + [rnd(k, 'real', 'manygroups', 8, 80) for k in ('fu', 'fo', 'mu')]},
-    'C14': {'mc': mcs('fub', 'fub_b1', 'fu', 'mb', 'bu'),
+    'C14': {'mc': mcs('fub', 'fub_b1', 'fu', 'mb', 'bu', thorough=('fub_c3', 'fu4', 'bu4')),
             'gen': [dict(GEN[n], tails=['quiet']) for n in ('fub', 'fu', 'mb', 'bu')],
             'random': suite(COLL_KINDS + MERGE_KINDS + ['bu', 'fe'], 200, 2000, 15, 150, profiles=('stale',))
                       + [rnd('fub', 'real', 'stale_big', 4, 20), rnd('fu', 'real', 'stale_big', 2, 10)]
                       + [rnd(k, 'real', 'manygroups', 10, 100) for k in ('fu', 'fo', 'mu')]},
-    'C15': {'mc': mcs('fub', 'fub_init', 'fob', 'fo', 'fu', 'mb'),
+    'C15': {'mc': mcs('fub', 'fub_init', 'fob', 'fo', 'fu', 'mb', thorough=('fub_c3', 'fu4', 'fob4c3')),
             'gen': gens('fub', 'fub_init', 'fob', 'fu'),
             'random': suite(COLL_KINDS + ['mb', 'mu'], 400, 4000, 40, 400)},
-    'C16': {'mc': mcs('bo', 'tbo'),
+    'C16': {'mc': mcs('bo', 'tbo', thorough=('bo4', 'tbo4')),
             'gen': gens('bo', 'tbo'),
             'random': suite(['bo', 'tbo'], 500, 5000, 50, 500, profiles=('headofline',)) + [rnd(k, 'small', 'headofline', 100, 1000) for k in ('bo', 'tbo')]},
-    'C17': {'mc': mcs('bu', 'bo', 'tbu', 'tbo', 'fub', 'fo'),
+    'C17': {'mc': mcs('bu', 'bo', 'tbu', 'tbo', 'fub', 'fo', thorough=('bu4', 'bo4', 'tbu4', 'tbo4')),
             'gen': gens('bu', 'bo', 'tbu', 'tbo'),
-            'random': suite(['bu', 'bo', 'tbu', 'tbo'], 400, 4000, 40, 400) + suite(COLL_KINDS + MERGE_KINDS, 100, 1000, 10, 100)},
-    'C18': {'mc': mcs('fub', 'fu', 'mu', 'fo'),
+            'random': suite(['bu', 'bo', 'tbu', 'tbo'], 400, 4000, 40, 400) + suite(COLL_KINDS + MERGE_KINDS, 100, 1000, 10, 100)
+                      + [rnd(k, 'small', 'hugehint', 150, 1500) for k in ('bu', 'bo', 'tbu', 'tbo')]},
+    'C18': {'mc': mcs('fub', 'fu', 'mu', 'fo', thorough=('fu4', 'mu3')),
             'gen': gens('fub', 'bu'),
             'random': suite(ALL_KINDS, 100, 1000, 10, 100)
                       + [rnd(k, 'small', 'oscillate', 60, 600) for k in COLL_KINDS + MERGE_KINDS]
-                      + [rnd(k, 'real', 'oscillate', 20, 200) for k in COLL_KINDS + MERGE_KINDS]},
+                      + [rnd(k, 'real', 'oscillate', 20, 200) for k in COLL_KINDS + MERGE_KINDS]
+                      + [rnd(k, sz, 'frontchurn', n, 10 * n) for k in ('fo', 'fob') for sz, n in (('small', 40), ('real', 12))]},
 }
 
 HOOK_COMMITS = ['f17c35b', '748a996', 'e526430', '6de2393']
